@@ -94,6 +94,9 @@ def static(c0: int, c1: int, c2: int, c3: int, c4: int, c5: int, c6: int, c7: in
     if CFG.get('first') is not None:
         if c0 != CFG['first']:
             return skip()
+    if CFG.get('second') is not None:
+        if c1 != CFG['second']:
+            return skip()
     cs_ = []
     for c in [c0, c1, c2, c3, c4, c5, c6, c7][:n]:
         k = None
@@ -186,8 +189,10 @@ def obligations(tier):
     n = 5 if tier == 'quick' else 6
     # case split on the first character to spread the work over the cores
     for first in ALPHA[1:]:      # a path starting with '//' is the scheme-less absolute form, not a web-server path
-        obs.append({'name': 'static.n%d.first%s' % (n, chr(first) if first != 47 else 'slash'), 'fn': 'static',
-                    'cfg': {'n': n, 'first': first}, 'timeout': 900 if tier == 'quick' else 3000})
+        for second in ALPHA:      # (split on the first two characters: 56 obligations keep all cores busy)
+            nm = lambda c: chr(c) if c != 47 else 'slash'
+            obs.append({'name': 'static.n%d.first%s.second%s' % (n, nm(first), nm(second)), 'fn': 'static',
+                        'cfg': {'n': n, 'first': first, 'second': second}, 'timeout': 900 if tier == 'quick' else 3000})
     # deeper traversal shapes with a concrete prefix
     for prefix in ('../', '../a', '../ab', 'b/../', 'b/..', './.', '..%2e/', '%2e%2e/', 'a/../../', 'b/a/../..', '../../'):
         m = 3 if tier == 'quick' else 4
